@@ -12,10 +12,10 @@ for d in seeded/*/; do
   id=$(basename "$d"); P=$(echo "$id" | sed -E 's/^c([0-9]+).*/C\1/')
   MUT_PROPS=$P tools/run_mutants.sh "$OUT.seeded.$id" "$d/patch.diff" >> "$OUT.seeded.log" 2>&1
 done
-MUT_PROPS="C12 C20" tools/run_mutants.sh "$OUT.refactors.r12" refactors/r12_refactor_*.diff > "$OUT.refactors.log" 2>&1
-MUT_PROPS="C14" tools/run_mutants.sh "$OUT.refactors.r14" refactors/r14_refactor_*.diff >> "$OUT.refactors.log" 2>&1
-MUT_PROPS="C15" tools/run_mutants.sh "$OUT.refactors.r15" refactors/r15_refactor_*.diff >> "$OUT.refactors.log" 2>&1
-MUT_PROPS="C20 C12" tools/run_mutants.sh "$OUT.refactors.r20" refactors/r20_refactor_*.diff >> "$OUT.refactors.log" 2>&1
+MUT_PROPS="C12 C20" tools/run_mutants.sh "$OUT.refactors.r12" refactors/?12_refactor_*.diff > "$OUT.refactors.log" 2>&1
+MUT_PROPS="C14" tools/run_mutants.sh "$OUT.refactors.r14" refactors/?14_refactor_*.diff >> "$OUT.refactors.log" 2>&1
+MUT_PROPS="C15" tools/run_mutants.sh "$OUT.refactors.r15" refactors/?15_refactor_*.diff >> "$OUT.refactors.log" 2>&1
+MUT_PROPS="C20 C12" tools/run_mutants.sh "$OUT.refactors.r20" refactors/?20_refactor_*.diff >> "$OUT.refactors.log" 2>&1
 python3 - "$OUT" <<'PY'
 import json,sys,glob
 out=sys.argv[1]
